@@ -277,7 +277,7 @@ def oracle(c, r, final=True):
     for x in r["j9"].split("|")[1].split():
         o, so, k, v, m = (int(y) for y in x.split(":"))
         if k and not m:
-            if k in fin:
+            if k in fin and final:
                 return "key %d is in the list twice" % k
             fin[k] = v
     for k in sorted(byk):
